@@ -23,16 +23,22 @@ class Layout:
         self.note = note
         self.root = None
         self.rendered = {}
+        self.spelling = None  # (style seed, layout seed): the files are written in an alternative spelling (C16)
 
     # -- filesystem
     def __enter__(self):
         self.root = tempfile.mkdtemp(prefix="verif_macro_")
-        for key, prog in self.files.items():
+        self.rendered = {}
+        for n, (key, prog) in enumerate(self.files.items()):
             p = os.path.join(self.root, key)
             os.makedirs(os.path.dirname(p), exist_ok=True)
-            pr = Printer()
+            if self.spelling is None:
+                pr, lay = Printer(), None
+            else:
+                pr = Printer(Style(random.Random(self.spelling[0] + n), 0.45))
+                lay = random.Random(self.spelling[1] + n) if self.spelling[1] is not None else None
             toks = pr.program(self._with_import_strings(key, prog))
-            r = render(toks)
+            r = render(toks, lay)
             r.posmarks = pr.posmarks
             self.rendered[key] = r
             with open(p, "w", encoding="utf-8") as f:
